@@ -531,6 +531,39 @@ fn run_program(input: &Sx) -> String {
     }
 }
 
+/// Sites `logger-runs` / `logger-rerun-after-err`: input `(lgs RULES (runs (run N*)…))` — ONE caller-owned `State`
+/// (prepared as `Configuration::optimize_with` prepares it, rules registered once), then one
+/// `Configuration::run(&problem, &mut state)` per `(run …)` — each with its own configuration — whatever the
+/// earlier runs returned. Output `(res (outs ok|err…) (raw …) (json …) (cbor …))`: the outcome of every run and
+/// the log the state holds at the end.
+fn run_runs(input: &Sx) -> String {
+    let items = input.items().unwrap();
+    let rules = &items[1];
+    let (_, runs) = items[2].head().unwrap();
+    let problem = LP::new("tag");
+    let r = catch(|| {
+        let mut state: State<TP> = State::new();
+        state.insert(mahf::logging::Log::new());
+        state.insert(mahf::state::common::Populations::<TP>::new());
+        state.insert(Random::new(0));
+        if apply_rules(&mut state, rules).is_err() { return None; }
+        let mut outs: Vec<String> = vec!["outs".into()];
+        for run in runs {
+            let (_, tree) = run.head().unwrap();
+            let config: Configuration<TP> = build_prog(tree, Configuration::builder()).build();
+            outs.push(if config.run(&problem, &mut state).is_ok() { "ok".into() } else { "err".into() });
+        }
+        let ex = export_log(&state.log(), &Pre::fresh());
+        Some((list(outs), ex))
+    });
+    match r {
+        None => "(res panic)".into(),
+        Some(None) => "(res err)".into(),
+        Some(Some((outs, Ok([raw, j, c])))) => list(["res".into(), outs, raw, j, c]),
+        Some(Some((_, Err(e)))) => format!("(res export-{e})"),
+    }
+}
+
 // ------------------------------------------------------------------------------------------------
 // site `exp*`: a sequence of real `par_experiment` calls into ONE folder.
 // input  `(exp (pre PREFILE…) (calls (call RULES (tree N…) RUNS LOG (probs NAME…))…))`,
@@ -1434,6 +1467,7 @@ fn run_cfg(input: &Sx) -> String {
 fn run_case(input: &Sx) -> String {
     match input.head().map(|h| h.0) {
         Some("lg") => run_program(input),
+        Some("lgs") => run_runs(input),
         Some("tl") => run_template_log(input),
         Some("fl") => run_floats(input),
         Some("cfg") => run_cfg(input),
@@ -1441,9 +1475,16 @@ fn run_case(input: &Sx) -> String {
         _ => panic!("unknown case"),
     }
 }
-fn site_of(input: &Sx) -> String {
+fn site_of(input: &Sx, output: &str) -> String {
     let it = input.items().unwrap();
     match it[0].atom().unwrap() {
+        // a run that comes AFTER a failed run on the same state, or only completed runs / a failure at the very end
+        "lgs" => {
+            let n_runs = it[2].items().map(|r| r.len() - 1).unwrap_or(0);
+            let outs: Vec<String> = Sx::parse(output).and_then(|o| o.items().and_then(|i| i.get(1).and_then(|x| x.head().map(|(_, a)| a.iter().map(|y| y.render()).collect())))).unwrap_or_default();
+            let first_err = outs.iter().position(|o| o == "err");
+            if first_err.map(|i| i + 1 < n_runs).unwrap_or(false) { "logger-rerun-after-err".into() } else { "logger-runs".into() }
+        }
         "lg" => {
             let (_, tree) = it[2].head().unwrap();
             if has_root_loop(tree) { "logger".into() } else { "logger-noloop".into() }
@@ -1566,14 +1607,16 @@ fn main() {
     let mut out = Out::new();
     if let Some(r) = a.replay {
         let sx = Sx::parse(&r).expect("bad replay input");
-        out.case(&site_of(&sx), &r, &run_case(&sx));
+        let o = run_case(&sx);
+        out.case(&site_of(&sx, &o), &r, &o);
         out.finish();
         let _ = std::fs::remove_dir_all(tmp_dir());
         return;
     }
     let mut emit = |input: String| {
         let sx = Sx::parse(&input).unwrap();
-        out.case(&site_of(&sx), &input, &run_case(&sx));
+        let o = run_case(&sx);
+        out.case(&site_of(&sx, &o), &input, &o);
     };
     let mut r = Sm::new(a.seed);
 
@@ -1684,6 +1727,86 @@ fn main() {
         };
         if r.chance(1, if a.thorough { 5 } else { 2 }) { emit(format!("(lg {} {} {})", rules, tagged("tree", tree), gen_pre(&mut r))); }
         else { emit(format!("(lg {} {})", rules, tagged("tree", tree))); }
+    }
+
+    // 2a. SEQUENCES of runs on one caller-owned state (Configuration::run again on the same State), with and
+    //     without failing runs in between: scripted flaky triggers, shipped triggers that fail while their source
+    //     is missing (ChangeOf over a missing X, EveryN::iterations before any Loop inserted the counter)
+    {
+        let run_rule_sets: Vec<&str> = vec![
+            "noconfig",
+            "(rules)",
+            "(rules (r always xid))",
+            "(rules (r (every 2) xid) (r always (named 1 iter)))",
+            "(rules (r (script t t e t t t t t t t t t) xid))",
+            "(rules (r always xid) (r (script f e f f e) xval) (r always (named 0 (const 1))))",
+            "(rules (r (script e) xid) (r (script t e t f t) iterval))",
+            "(rules (r (script t f t e) (named 2 x)) (r (not (script f f e)) (named 1 iter)) (r never xid))",
+            "(rules (r changed xid))",
+            "(rules (r (every 1) (named 0 iter)) (r always xid))",
+            "(rules (r (every 2) xid) (r changed (named 1 x)) (r always evals))",
+            "(rules (r (not changed) (named 1 iter)) (r (script t t t e) (named 2 (const 3))))",
+        ];
+        let seqs: Vec<Box<dyn Fn(u64) -> Vec<String>>> = vec![
+            Box::new(|n| vec![format!("(run (setx 0) (loop {n} (log) (addx 1)))")]),
+            Box::new(|n| vec![format!("(run (setx 0) (loop {n} (log) (addx 1)))"); 2]),
+            Box::new(|n| vec![format!("(run (setx 0) (loop {n} (log) (addx 1)))"); 3]),
+            Box::new(|n| vec!["(run (log))".into(), "(run (setx 1) (log))".into(), format!("(run (loop {n} (log) (addx 1)))")]),
+            Box::new(|n| vec![format!("(run (log) (loop {n} (addx 1)))"), format!("(run (setx 2) (loop {n} (log)))")]),
+            Box::new(|n| vec![format!("(run (setx 0) (loop {n} (log) (addx 1)))"), "(run (log))".into(), "(run (addx 1) (log) (log))".into()]),
+            Box::new(|n| vec![format!("(run (loop {n} (log)))"), format!("(run (setx 3) (loop {} (log) (addx 1)) (log))", n + 1)]),
+            Box::new(|n| vec!["(run)".into(), format!("(run (setx 1) (loop {n} (log) (log)))"), "(run)".into()]),
+            Box::new(|n| vec![format!("(run (scope (setx 1) (loop {n} (log))))"), "(run (log) (loop 2 (log)))".into()]),
+            Box::new(|n| vec![format!("(run (setx 0) (loop 2 (scope (loop {n} (log) (addx 1))) (log)))"), format!("(run (loop {n} (ifx 0 (log)) (addx 2)))")]),
+        ];
+        for rs in &run_rule_sets {
+            for sq in &seqs {
+                for n in 0..=3u64 {
+                    let runs = sq(n);
+                    if rs.contains("changed") && runs.iter().any(|t| t.contains("(scope")) { continue; }
+                    emit(format!("(lgs {} {})", rs, tagged("runs", runs)));
+                }
+            }
+        }
+        let n_runs_rand = if a.thorough { 30000 } else { 900 };
+        for _ in 0..n_runs_rand {
+            let k = r.range(2, 3);
+            let with_changed = r.chance(1, 4);
+            let runs: Vec<String> = (0..k).map(|_| {
+                let len = r.below(4);
+                let mut tree = gen_nodes(&mut r, 2, len);
+                if with_changed { tree.retain(|t| !t.contains("(scope")); }
+                if r.chance(7, 10) && !tree.iter().any(|t| t.starts_with("(loop")) {
+                    let n = r.below(5);
+                    let l = r.range(1, 3);
+                    let mut body = gen_nodes(&mut r, 1, l);
+                    if with_changed { body.retain(|t| !t.contains("(scope")); }
+                    let pos = r.below(tree.len() as u64 + 1) as usize;
+                    tree.insert(pos, tagged(&format!("loop {n}"), body));
+                }
+                tagged("run", tree)
+            }).collect();
+            let mut changed_left = with_changed;
+            let nr = r.range(1, 4);
+            let rules = if r.chance(1, 30) { "noconfig".to_string() } else {
+                let items: Vec<String> = (0..nr).map(|_| {
+                    if changed_left && r.chance(1, 2) {
+                        changed_left = false;
+                        return format!("(r {} {})", *r.pick(&["changed", "changed", "(not changed)"]), gen_ext(&mut r));
+                    }
+                    // failing triggers are the point: a script with an `e` in every second rule
+                    let t = if r.chance(1, 2) {
+                        let n = r.range(1, 8);
+                        let mut v = vec!["script".to_string()];
+                        for _ in 0..n { v.push((*r.pick(&["t", "t", "t", "f", "e"])).into()); }
+                        if r.chance(1, 4) { format!("(not {})", list(v)) } else { list(v) }
+                    } else { gen_trig(&mut r) };
+                    format!("(r {} {})", t, gen_ext(&mut r))
+                }).collect();
+                tagged("rules", items)
+            };
+            emit(format!("(lgs {} {})", rules, tagged("runs", runs)));
+        }
     }
 
     // 2b. float values through the exports (bit-exact), finite and non-finite
@@ -1872,7 +1995,7 @@ fn main() {
     for chunk in exp_inputs.chunks(250) {
         for (input, res) in chunk.iter().zip(run_exp_batch(chunk)) {
             let sx = Sx::parse(input).unwrap();
-            out.case(&site_of(&sx), input, &res);
+            out.case(&site_of(&sx, &res), input, &res);
         }
     }
     out.finish();
